@@ -122,17 +122,17 @@ def generated_cases(chk):
     scale = 1 if quick else 4
     out = []
     r = chk.rng.fork("g-c10")
-    for _ in range(200 * scale):
+    for _ in range(160 * scale):
         roots, files, tag, expected = c10_gen.symbols(r)
         out.append(Case("g-c10/" + tag, roots, files))
         out[-1].expected_symbols = expected
-    for _ in range(220 * scale):
+    for _ in range(170 * scale):
         roots, files, tag, budget = c10_gen.asm_blocks(r)
         out.append(Case("g-c10/" + tag, roots, files, budget=budget, stat=0 if r.chance(0.25) else 1))
     for _ in range(60 * scale):
         roots, files, tag = c10_gen.functions(r)
         out.append(Case("g-c10/" + tag, roots, files))
-    for _ in range(120 * scale):
+    for _ in range(100 * scale):
         roots, files, tag, matching = c10_gen.prefixes(r)
         out.append(Case("g-c10/" + tag, roots, files, matching=matching))
     for _ in range(60 * scale):
@@ -171,7 +171,7 @@ def generated_cases(chk):
         import c13_gen
         r13 = chk.rng.fork("c13")
         kinds = list(c13_gen.FAULT_TEXTS) + ["duplicate_label"]
-        for i in range(150 * scale):
+        for i in range(110 * scale):
             p = c13_gen.gen_program(r13)
             if i % 3:
                 q = c13_gen.inject(r13, p, r13.choice(kinds))
@@ -183,7 +183,7 @@ def generated_cases(chk):
     try:
         from props import c06
         r06 = chk.rng.fork("c06")
-        for _ in range(110 * scale):
+        for _ in range(80 * scale):
             p = c06.gen_program(r06)
             text = p.text if isinstance(p.text, str) else "\n".join(p.text) + "\n"
             out.append(Case("g-banks", ["main.asm"], {"main.asm": text.encode()}))
